@@ -53,6 +53,7 @@ func Globals() {
 		queue.DefaultDelayOnRepeat = time.Millisecond
 		queue.DefaultInitialDelayOnFailedTask = 40 * time.Millisecond
 		shop.WaitQueuesTimeout = 3 * time.Second
+		kem.DefaultSyncTime = 2 * time.Millisecond
 	})
 }
 
